@@ -276,4 +276,56 @@ theorem exclusiveRename_is_link_then_remove :
                        "if err != nil", ".return err", "return nil"] := by
   rw [exclusiveRename_eq]; rfl
 
+/-! ### TopicDiscoverer (model `Nsq.Model.ToFileDisc`; `isTopicAllowed` is tied by translation in `Nsq.Tie.ToolsToFileFn`) -/
+
+def expected_updateTopics : List String := [
+  "range topics",
+  ".if _, ok := t.topics[topic]; ok",
+  "..continue",
+  ".if !t.isTopicAllowed(topic)",
+  "..continue",
+  ".fl, err := NewFileLogger(t.logf, t.opts, topic, t.cfg)",
+  ".if err != nil",
+  "..continue",
+  ".t.topics[topic] = fl",
+  ".t.wg.Add(1)",
+  ".go func(fl *FileLogger) { fl.router() t.wg.Done() }(fl)"]
+
+theorem updateTopics_eq : Nsq.Gen.ToolsToFile.updateTopics = expected_updateTopics := rfl
+
+def expected_discovererRun : List String := [
+  "var ticker <-chan time.Time",
+  "if len(t.opts.Topics) == 0",
+  ".ticker = time.Tick(t.opts.TopicRefreshInterval)",
+  "t.updateTopics(t.opts.Topics)",
+  "label forloop",
+  "for",
+  ".select",
+  "..case <-ticker",
+  "...newTopics, err := t.ci.GetLookupdTopics(t.opts.NSQLookupdHTTPAddrs)",
+  "...if err != nil",
+  "....continue",
+  "...t.updateTopics(newTopics)",
+  "..case <-t.termChan",
+  "...range t.topics",
+  "....close(fl.termChan)",
+  "...break forloop",
+  "..case <-t.hupChan",
+  "...range t.topics",
+  "....fl.hupChan <- true",
+  "t.wg.Wait()"]
+
+theorem discovererRun_eq : Nsq.Gen.ToolsToFile.discovererRun = expected_discovererRun := rfl
+
+/-- in `run`: the termination requests go out, the loop is left, and only then `wg.Wait()` (the routers
+are awaited, not abandoned); the router goroutine is registered with the WaitGroup before it starts -/
+theorem discoverer_term_then_wait :
+    pos "....close(fl.termChan)" discovererRun < pos "...break forloop" discovererRun
+    ∧ pos "...break forloop" discovererRun < pos "t.wg.Wait()" discovererRun
+    ∧ pos "t.wg.Wait()" discovererRun < discovererRun.length
+    ∧ pos ".t.topics[topic] = fl" updateTopics < pos ".t.wg.Add(1)" updateTopics
+    ∧ pos ".t.wg.Add(1)" updateTopics < pos ".go func(fl *FileLogger) { fl.router() t.wg.Done() }(fl)" updateTopics
+    ∧ pos ".go func(fl *FileLogger) { fl.router() t.wg.Done() }(fl)" updateTopics < updateTopics.length := by
+  rw [discovererRun_eq, updateTopics_eq]; decide
+
 end Nsq.Tie.ToolsToFile
